@@ -135,7 +135,7 @@ def run_tlc(module, cfg_text, spec_dirs, workers=None, simulate=None, depth=None
         cmd = ["java", "-XX:+UseParallelGC", "-Xss16m"]
         if dfs_queue:
             cmd.append("-Dtlc2.tool.queue.IStateQueue=StateDeque")
-        cmd += list(jvm_opts or [])
+        cmd += list(jvm_opts or ["-Xmx12g"])
         cmd += ["-cp", JAR_CP, "tlc2.TLC", "-noGenerateSpecTE",
                 "-metadir", os.path.join(scratch, "meta"),
                 "-workers", str(workers or os.cpu_count() or 4)]
